@@ -10,7 +10,7 @@ EXTRA = {  # patches that are (also) expected to be caught by other checks
     "C02-f": ["C08"], "C05-f": ["C05", "C04"], "C07-f": ["C08"], "C10-f": ["C10", "C11"], "C14-f": ["C14", "C02"], "C18-e": ["C04"], "C09-f": ["C09", "C10"], "C11-f": ["C11", "C10"],
     "C05-h": ["C05", "C04"], "C18-h": ["C18", "C04"], "C14-h": ["C04"], "C09-g": ["C09", "C10"],
     "C10-i": ["C01"], "C01-j": ["C13"], "C11-i": ["C11", "C10"],
-    "C02-k": ["C02", "C11"], "C04-k": ["C04", "C14"], "C05-k": ["C05", "C04"], "C11-k": ["C11", "C09", "C10"], "C16-k": ["C16", "C02"],
+    "C02-k": ["C02", "C11"], "C04-k": ["C04", "C14"], "C05-k": ["C05", "C04"], "C11-k": ["C11", "C09", "C10"], "C16-k": ["C16", "C02"], "C09-l": ["C11"],
 }
 # not a violation under the property as we read it (DESIGN.md 11.8): must stay silent
 EXPECT_SILENT = {("C07-d", "C07"), ("C14-g", "C14")}
